@@ -107,6 +107,20 @@ impl<T> RawVec<T> {
     pub fn snapshot(&self, start: u32) -> Vec<(u32, Option<Item<'_, T>>)> {
         unsafe { self.0.snapshot(start).collect() }
     }
+    /// Like `snapshot` but yields at most `max` entries; also returns the end of the snapshot.
+    pub fn snapshot_bounded(
+        &self,
+        start: u32,
+        max: usize,
+    ) -> (u32, Vec<(u32, Option<Item<'_, T>>)>) {
+        let iter = unsafe { self.0.snapshot(start) };
+        let end = iter.end();
+        let mut out = Vec::new();
+        for entry in iter.take(max) {
+            out.push(entry);
+        }
+        (end, out)
+    }
 }
 
 impl<T: Send + Sync> RawVec<T> {
